@@ -13,7 +13,8 @@ from .c01 import SchedProp
 from .core import rp_import
 
 SCHED_CLAUSES = ['named_waiting_task_leaves_pool_canceled', 'only_named_tasks_canceled',
-                 'named_task_met_later_never_started', 'named_task_never_started_after_request_consumed']
+                 'named_task_met_later_never_started', 'named_task_never_started_after_request_consumed',
+                 'named_task_not_waiting_after_request_consumed']
 EXEC_CLAUSES = ['exec:' + c for c in X.C08_EXEC_CLAUSES]
 
 
@@ -57,11 +58,29 @@ class C08(SchedProp):
                     # a request that arrives while the queue holding these tasks is being drained
                     ops.append(['cancel_mid', [rng.choice([r['uid'] for r in prev[1]])]])
                 elif uids and rng.random() < 0.25:
-                    ops.append(['cancel', [rng.choice(uids) for _ in range(rng.randint(1, 2))]])
+                    # some requests are delivered in two halves with the loop running in between
+                    ops.append(['cancel_split' if rng.random() < 0.4 else 'cancel',
+                                [rng.choice(uids) for _ in range(rng.randint(1, 2))]])
                 ops.append(o)
                 prev = o
             c['ops'] = ops
             yield c
+        # directed: a busy one-node pilot, a task that has to wait and its request, in two halves, pulled in
+        # the same queue drain / one iteration later / before the task arrives
+        for k in range(6 if tier == 'quick' else 60):
+            cpn = rng.choice([2, 4])
+            cfg = {'cpn': cpn, 'gpn': 0, 'lfs': 0, 'mem': 0, 'scattered': True}
+            def rq(u, cores):
+                return {'uid': u, 'ranks': 1, 'cpr': cores, 'gpr': 0, 'lfs': 0, 'mem': 0, 'rpn': 0,
+                        'prio': 0, 'colo': None, 'excl': False, 'env': None, 'slots': None}
+            a, b, c = rq(1, cpn), rq(2, rng.randint(1, cpn)), rq(3, 1)
+            mid = [[['arrive', [b, c]], ['cancel_split', [2]], ['iter']],
+                   [['arrive', [b]], ['iter'], ['cancel_split', [2]], ['iter']],
+                   [['cancel_split', [2]], ['arrive', [b, c]], ['iter']],
+                   [['cancel_split', [2]], ['iter'], ['arrive', [b, c]], ['iter']]][k % 4]
+            ops = [['arrive', [a]], ['iter']] + mid + [['iter'], ['unsched', [1]], ['iter'], ['iter']]
+            yield {'kind': 'sched', 'cfg': cfg, 'nodes': [{'cores': [0] * cpn, 'gpus': []}], 'ops': ops,
+                   'disciplined': True, 'names': 'unique'}
         for sc in X.gen_cancel_cases(rng, 140 if tier == 'quick' else 2500):
             yield {'kind': 'exec', 'sc': sc}
 
